@@ -199,11 +199,17 @@ pub async fn run(seed: u64, profile_name: &str, out: Option<Out>) -> Vec<Value> 
                     continue;
                 }
                 let d = rng.gen_range(1..=known);
-                if rng.gen_bool(0.7) {
-                    handle.send(&world, &[AckRef::Delivery { d }], &[], None);
-                } else {
-                    let secs = [0, 2, 30][rng.gen_range(0..3)];
-                    handle.send(&world, &[], &[(AckRef::Delivery { d }, secs)], None);
+                let d2 = rng.gen_range(1..=known);
+                let secs = [0, 2, 30][rng.gen_range(0..3)];
+                match rng.gen_range(0..10) {
+                    // acknowledgements only
+                    0..=4 => handle.send(&world, &[AckRef::Delivery { d }], &[], None),
+                    // modifications only
+                    5..=6 => handle.send(&world, &[], &[(AckRef::Delivery { d }, secs)], None),
+                    // both in one control message
+                    7..=8 => handle.send(&world, &[AckRef::Delivery { d }], &[(AckRef::Delivery { d: d2 }, secs)], None),
+                    // an empty control message (keep-alive)
+                    _ => handle.send(&world, &[], &[], None),
                 }
             }
             tokio::time::sleep(Duration::from_millis(rng.gen_range(1..4000))).await;
